@@ -343,6 +343,7 @@ func init() {
 			}
 			var res FFResult
 			json.Unmarshal(r.Res, &res)
+			attachItem(res.Viol, "ff", raw[r.Index])
 			tot.Attempts += res.Attempts
 			tot.Accepted += res.Accepted
 			tot.Refused += res.Refused
